@@ -29,6 +29,12 @@ for i in ids:
     props = [meta["breaks_property"]] + [p for p in meta.get("also_check", []) if p != meta["breaks_property"]]
     r = subprocess.run([os.path.join(V, "lib", "seedcheck.sh"), d, tier] + props, capture_output=True, text=True)
     res = meta.setdefault("checks", {})
+    if "patch does not apply" in r.stdout + r.stderr:
+        # (a stale verdict must not pass for one of this revision)
+        meta["patch_state"] = "DOES NOT APPLY at /repo %s - rebase by hand" % head
+        print(i, "patch does not apply at", head, flush=True)
+        json.dump(meta, open(mp, "w"), indent=1)
+        continue
     for p, code in re.findall(r"^(C\d+) \w+ -> exit (\d+)", r.stdout, flags=re.M):
         first = re.search(r"^%s \w+ -> exit \d+\n((?:    .*\n)*)" % p, r.stdout, flags=re.M)
         viol = [l.strip() for l in (first.group(1).split("\n") if first else []) if l.strip().startswith("VIOLATION")]
